@@ -1,0 +1,22 @@
+//go:build verif
+
+package pseudonymization
+
+import "github.com/cossacklabs/acra/pseudonymization/common"
+
+// Verification hooks (add-only, compiled with -tags verif only).
+
+// VerifGenerateDataID exposes pseudoanonymizer.generateDataID.
+func VerifGenerateDataID(data []byte, ctx common.TokenContext, dataType common.TokenType) []byte {
+	id, _ := (&pseudoanonymizer{}).generateDataID(data, ctx, dataType)
+	return id
+}
+
+// VerifKeyPrefixes returns the storage key prefixes of consistent-hash entries and token entries.
+func VerifKeyPrefixes() (hashPrefix, tokenPrefix []byte) {
+	p := &pseudoanonymizer{}
+	return p.generateKeyForHash(nil), p.generateKeyForToken(nil)
+}
+
+// VerifLoopLimit exposes defaultDataGenerationLoopLimit.
+const VerifLoopLimit = defaultDataGenerationLoopLimit
